@@ -35,6 +35,9 @@ CONFIGS_FULL = [
 CONFIGS_QUICK = [CONFIGS_FULL[0], CONFIGS_FULL[4], CONFIGS_FULL[6], CONFIGS_FULL[11]]
 CONFIG_DEFAULT = {"solver": "yices", "storage_layout": "solidity", "panic_error_codes": "0x01"}
 CONFIG_Z3 = {"solver": "z3", "storage_layout": "generic", "panic_error_codes": "*"}
+# length candidates given out of order (the printed bounds are the admissible set whatever their order)
+CONFIG_LEN = {"solver": "yices", "storage_layout": "solidity", "panic_error_codes": "0x01", "default_array_lengths": "2,0,1", "default_bytes_lengths": "65,3,0"}
+CONFIG_LEN2 = {"solver": "yices", "storage_layout": "solidity", "panic_error_codes": "0x01", "default_array_lengths": "3,2", "default_bytes_lengths": "1024,65"}
 
 
 def parse_codes(p):
@@ -92,6 +95,9 @@ def gen_tests(tier):
             for f in ("panic1", "assert", "revert"):
                 for cfg in (CONFIG_DEFAULT, CONFIG_Z3):
                     out.append((cfg, {"sig": sig, "shape": "single", "guards": [g], "fails": [f]}))
+        for g in dyn:
+            for cfg in (CONFIG_LEN, CONFIG_LEN2):
+                out.append((cfg, {"sig": sig, "shape": "single", "guards": [g], "fails": ["panic1"]}))
         for g1, g2 in itertools.product(dyn + stat, dyn):
             if g1 != g2:
                 out.append((CONFIG_DEFAULT, {"sig": sig, "shape": "nested", "guards": [g1, g2], "fails": ["panic1"]}))
